@@ -459,6 +459,19 @@ def isToBvS : Sexp → Option (Option Int)
   | .list l => isToBv l
   | _ => none
 
+/-- `(as const (Array σ τ))` / `(as x σ)` after the keyword (`_enter_smtlib_as`) -/
+def asForm (Γ : PEnv) : List Sexp → Except Err (Val × MgrSt)
+  | [.atom what, ty] =>
+    (match readTy Γ.binds [] ty with
+     | .ok t =>
+       if pyTok what == "const" then
+         (match t with
+          | .array idx _ => .ok (.fn (.asConst idx), Γ.mgr)
+          | _ => .error .other)
+       else (mkSymbol Γ.mgr (Sym.var (pyTok what) t)).map (fun r => (.term (Term.sym r.1), r.2))
+     | .error e => .error e)
+  | _ => .error .syntax
+
 def bindAll (bs : List (String × Val)) (binds : List (String × Val)) : List (String × Val) :=
   bs.foldl (fun acc b => b :: acc) binds
 
@@ -472,48 +485,11 @@ def rdVal (Γ : PEnv) (lone : Bool) : Sexp → Except Err (Val × MgrSt)
     let h := pyTok hd
     match tableLookup h with
     | some (.handler fn) =>
-      if fn == "_enter_let" then
-        match rest with
-        | [.list (b :: bs), body] =>
-          (match rdLetBinds Γ [] [] (b :: bs) with
-           | .ok Γ' => rdVal Γ' false body
-           | .error e => .error e)
-        | .list (_ :: _) :: _ => .error .other        -- `_exit_let(varlist, bdy)` with another number of arguments
-        | _ => .error .syntax
-      else if fn == "_enter_quantifier" then
-        match rest with
-        | [.list (b :: bs), body] =>
-          (match rdQuantBinds Γ [] (b :: bs) with
-           | .ok (Γ', vars) =>
-             (match rdVal Γ' false body with
-              | .ok (.term t, σ) =>
-                (liftMk ((if h == "forall" then Mk.ForAll else Mk.Exists) vars t)).map (fun r => (.term r, σ))
-              | .ok _ => .error .other
-              | .error e => .error e)
-           | .error e => .error e)
-        | .list (_ :: _) :: _ => .error .other
-        | _ => .error .syntax
-      else if fn == "_enter_annotation" then
-        match rest with
-        | t :: attrs =>
-          (match rdVal Γ false t with
-           | .ok (.term t', σ) => if attrsOK attrs then .ok (.term t', σ) else .error .syntax
-           | .ok _ => .error .other
-           | .error e => .error e)
-        | [] => .error .syntax
+      if fn == "_enter_let" then rdLetForm Γ rest
+      else if fn == "_enter_quantifier" then rdQuantForm Γ (h == "forall") rest
+      else if fn == "_enter_annotation" then rdAnnotForm Γ rest
       else if fn == "_smtlib_underscore" then (underscore rest).map (fun v => (v, Γ.mgr))
-      else if fn == "_enter_smtlib_as" then
-        match rest with
-        | [.atom what, ty] =>
-          (match readTy Γ.binds [] ty with
-           | .ok t =>
-             if pyTok what == "const" then
-               (match t with
-                | .array idx _ => .ok (.fn (.asConst idx), Γ.mgr)
-                | _ => .error .other)
-             else (mkSymbol Γ.mgr (Sym.var (pyTok what) t)).map (fun r => (.term (Term.sym r.1), r.2))
-           | .error e => .error e)
-        | _ => .error .syntax
+      else if fn == "_enter_smtlib_as" then asForm Γ rest
       else .error .unmodelled
     | some e =>
       (match fnOfEntry e with
@@ -553,6 +529,38 @@ def rdVal (Γ : PEnv) (lone : Bool) : Sexp → Except Err (Val × MgrSt)
           | .error e => .error e)
        | .ok _ => .error .other
        | .error e => .error e)
+
+/-- `(let (bindings) body)` after the keyword -/
+def rdLetForm (Γ : PEnv) : List Sexp → Except Err (Val × MgrSt)
+  | [.list (b :: bs), body] =>
+    (match rdLetBinds Γ [] [] (b :: bs) with
+     | .ok Γ' => rdVal Γ' false body
+     | .error e => .error e)
+  | .list (_ :: _) :: _ => .error .other        -- `_exit_let(varlist, bdy)` with another number of arguments
+  | _ => .error .syntax
+
+/-- `(forall|exists (binders) body)` after the keyword -/
+def rdQuantForm (Γ : PEnv) (isForall : Bool) : List Sexp → Except Err (Val × MgrSt)
+  | [.list (b :: bs), body] =>
+    (match rdQuantBinds Γ [] (b :: bs) with
+     | .ok (Γ', vars) =>
+       (match rdVal Γ' false body with
+        | .ok (.term t, σ) =>
+          (liftMk ((if isForall then Mk.ForAll else Mk.Exists) vars t)).map (fun r => (.term r, σ))
+        | .ok _ => .error .other
+        | .error e => .error e)
+     | .error e => .error e)
+  | .list (_ :: _) :: _ => .error .other
+  | _ => .error .syntax
+
+/-- `(! term attributes…)` after the keyword -/
+def rdAnnotForm (Γ : PEnv) : List Sexp → Except Err (Val × MgrSt)
+  | t :: attrs =>
+    (match rdVal Γ false t with
+     | .ok (.term t', σ) => if attrsOK attrs then .ok (.term t', σ) else .error .syntax
+     | .ok _ => .error .other
+     | .error e => .error e)
+  | [] => .error .syntax
 
 /-- the arguments of an application, left to right (the manager's state is threaded) -/
 def rdArgs (Γ : PEnv) : List Sexp → Except Err (List Val × MgrSt)
@@ -594,6 +602,21 @@ def rdQuantBinds (Γ : PEnv) (vars : List Sym) : List Sexp → Except Err (PEnv 
     | .error e => .error e
   | _ :: _ => .error .syntax
 end
+
+/-! The equation lemmas of the mutual block are generated here, once, so that the proof files that unfold these
+functions can be imported together. -/
+theorem rdVal_str (Γ : PEnv) (lone : Bool) (lit : String) :
+    rdVal Γ lone (.str lit) = .ok (.term (Term.str lit), Γ.mgr) := by rw [rdVal]
+theorem rdArgs_nil (Γ : PEnv) : rdArgs Γ [] = .ok ([], Γ.mgr) := by rw [rdArgs]
+theorem rdLetBinds_nil (Γ : PEnv) (seen : List String) (delayed : List (String × Val)) :
+    rdLetBinds Γ seen delayed [] = .ok { Γ with binds := bindAll delayed.reverse Γ.binds } := by rw [rdLetBinds]
+theorem rdQuantBinds_nil (Γ : PEnv) (vars : List Sym) : rdQuantBinds Γ vars [] = .ok (Γ, vars.reverse) := by
+  rw [rdQuantBinds]
+theorem rdLetForm_nil (Γ : PEnv) : rdLetForm Γ [] = .error .syntax := by
+  rw [rdLetForm] <;> (intros; simp_all)
+theorem rdQuantForm_nil (Γ : PEnv) (b : Bool) : rdQuantForm Γ b [] = .error .syntax := by
+  rw [rdQuantForm] <;> (intros; simp_all)
+theorem rdAnnotForm_nil (Γ : PEnv) : rdAnnotForm Γ [] = .error .syntax := by rw [rdAnnotForm]
 
 /-- pySMT's reading of a term in the environment `Γ` (the text is a whole command argument) -/
 def readTerm (Γ : PEnv) (s : Sexp) : Except Err Term :=
